@@ -140,6 +140,39 @@ Theorem C10_curve_restores_variance :
 Proof. exact trace_restores_variance. Qed.
 Print Assumptions C10_curve_restores_variance.
 
+(* 9c. at R: the decision table of a prescribed sill value ([t2] = the model right after the fixed values were applied):
+   var and nugget both not fitted and var above the sill -> nugget = its lower bound, var = sill - that bound;
+   var not fitted otherwise -> var kept, nugget = sill - var;  only the nugget not fitted -> nugget kept, var = sill - nugget *)
+Theorem C10_sill_decision_table :
+  forall (ora : nat -> list R -> R), (forall args, ora ORA_VARFACTOR args <> 0%R) ->
+  forall (c : Cfg R) (nopt : nat) (sel : list (nat * Sel R)) (anis : AnisSpec R) (isdir : bool) (evs : list (list R))
+         (popt : list R) (s0 s' t1 t2 : MState R) (d : Dict R) (v : R),
+  length (m_opt s0) = nopt ->
+  apply_fixed (Rops ora) c nopt sel s0 = Ok t1 ->
+  oset (set_var (Rops ora) c) (var_target (Rops ora) true sel s0) t1 = Ok t2 ->
+  fit_run (Rops ora) true c nopt sel (SillVal v) anis isdir evs popt s0 = Ok (s', d) ->
+  (nf_in sel 0 = true -> nf_in sel 2 = true -> (v < get_var (Rops ora) t2)%R ->
+     exists l, b_lo (c_bnug c) = Some l /\ m_nug s' = l /\ get_var (Rops ora) s' = (v - l)%R)
+  /\ (nf_in sel 0 = true -> (nf_in sel 2 = true -> ~ (v < get_var (Rops ora) t2)%R) ->
+     get_var (Rops ora) s' = get_var (Rops ora) t2 /\ m_nug s' = (v - get_var (Rops ora) t2)%R)
+  /\ (nf_in sel 0 = false -> nf_in sel 2 = true ->
+     m_nug s' = m_nug t2 /\ get_var (Rops ora) s' = (v - m_nug t2)%R).
+Proof. exact sill_decision_table. Qed.
+Print Assumptions C10_sill_decision_table.
+
+(* 9d. at R: the r2 score (1 - ss_res/ss_tot of the fitted curve [vs] against the data [ys]) is at most 1, and it is 1
+   exactly when the fitted curve passes through every data point ("recovers the generating curve") *)
+Theorem C10_r2_le_1 :
+  forall (ora : nat -> list R -> R) (ys vs : list R), (0 < ss_tot (Rops ora) ys)%R -> (r2_score (Rops ora) ys vs <= 1)%R.
+Proof. exact r2_le_1. Qed.
+Print Assumptions C10_r2_le_1.
+
+Theorem C10_r2_eq_1_iff :
+  forall (ora : nat -> list R -> R) (ys vs : list R), length ys = length vs -> (0 < ss_tot (Rops ora) ys)%R ->
+  (r2_score (Rops ora) ys vs = 1%R <-> ys = vs).
+Proof. exact r2_eq_1_iff. Qed.
+Print Assumptions C10_r2_eq_1_iff.
+
 (* 10-12. the bookkeeping of the PINNED tree violates the property (rationals, computed) *)
 Theorem C10_sill_exact_refuted :
   exists (s' : MState Q) (d : Dict Q),
